@@ -950,7 +950,7 @@ def run(chk: harness.Check):
         "sum/product is reviewed in tables/narrow_arith.toml; D3 every CFG loop is driven by a finite std iterator or every one of "
         "its cycles passes through the reviewed progress construct of tables/progress.toml, and every recursion cycle is preceded "
         "by its progress call. This decides that the set of ways the library can fail to return is the reviewed set — not that it never fails: "
-        "index and slice sites are an armed inventory (D4, tables/index_sites.toml) whose entries carry machine-checked dominance requirements where the invariant is local; usize additions are counted only.")
+        "index and slice sites are an armed inventory (D4, tables/index_sites.toml) whose entries carry machine-checked dominance requirements where the invariant is local; usize additions are counted only. D5: every offset that reaches a diagnostic label has the provenance C04.D1 accepts (report rendering panics on anything else).")
     chk.trusted = ["rustc MIR (dev profile: overflow checks and debug assertions present)",
                    "macro-generated items (derive, bitflags, thiserror, strum, uniffi scaffolding) trusted by origin",
                    "std/dependency internals (serde_yaml, codesnake) out of scope", "tables/*.toml are the reviewed reference"]
@@ -962,6 +962,13 @@ def run(chk: harness.Check):
     chk.floor("C03.D3-progress", "loops analysed", stats["ITER"] + stats["TABLE"], 60)
     n_idx = d4_index(chk, F)
     chk.floor("C03.D4-index", "index / slice sites", n_idx, 80)
+    # D5: "rendering the diagnostics report" panics inside codesnake when a label is off a char boundary or out of the input:
+    # the offset-provenance rule decided for C04 is a necessary condition here as well
+    import c04
+    sub = harness.Check("C04", chk.tier)
+    c04.run(sub)
+    harness.fold(chk, sub, lambda r: "C03.D5-report-offsets" if r.startswith("C04.") else r,
+                 keep=lambda r: r in ("C04.D1-provenance", "anchor-missing"))
     # census (not armed)
     census = Counter()
     for k, f in F.funcs.items():
